@@ -8,7 +8,11 @@ mod scanner;
 
 use self::scanner::Scanner;
 
-pub type InterpSlot = (usize, usize);
+// An interpolation slot is given as the start/end character offsets of the slot
+// in the processed string, and the source location of its first character
+// (the one after `${`), which the offsets alone can't give once the literal
+// contains escape sequences or line breaks.
+pub type InterpSlot = (usize, usize, (usize, usize));
 
 #[derive(Clone, Debug, PartialEq)]
 pub enum Token {
@@ -188,6 +192,7 @@ impl<'input> Lexer<'input> {
         let mut first_hex_char = None;
 
         let mut cur_interpolation_start = 0;
+        let mut cur_interpolation_loc = (0, 0);
         let mut interpolation_slots = vec![];
         let mut interpolation_brace_count = 0;
 
@@ -203,6 +208,7 @@ impl<'input> Lexer<'input> {
                     } else if c == '$' {
                         if interpolate {
                             cur_interpolation_start = chars.len();
+                            cur_interpolation_loc = (cur_loc.0, cur_loc.1 + 2);
                             state = StrScanState::Interpolate;
                             chars.push('$');
                         } else {
@@ -275,7 +281,11 @@ impl<'input> Lexer<'input> {
 
                     if interpolation_brace_count == 0 {
                         // We shorten the slot to ignore the delimiters.
-                        let slot = (cur_interpolation_start, chars.len()+1);
+                        let slot = (
+                            cur_interpolation_start,
+                            chars.len()+1,
+                            cur_interpolation_loc,
+                        );
                         interpolation_slots.push(slot);
                         state = StrScanState::None;
                     }
